@@ -13,5 +13,12 @@ func Len(v interface{}) int {
 	if rv.Kind() == reflect.Ptr {
 		rv = rv.Elem()
 	}
-	return rv.Len()
+
+	switch rv.Kind() {
+	case reflect.String, reflect.Slice, reflect.Array, reflect.Map, reflect.Chan:
+		return rv.Len()
+	}
+
+	// nil pointers and values that have no length
+	return 0
 }
